@@ -906,9 +906,7 @@ PROFILES['sched'] = gen_sched
 # ---------------------------------------------------------------------------
 # C16: stop conditions placed from a dry run
 
-def gen_stop(g):
-    import copy
-    from . import execu
+def _stop_base(g):
     r = g.rng
     lockish = g.chance(0.3)
     scn, model, chain = base_scenario(
@@ -937,6 +935,25 @@ def gen_stop(g):
         sched.append(gen_run(g, k, solver=r.choice(['same', 'new'])))
     scn['schedule'] = sched
     add_control(g, scn, model, chain, p=0.5)
+    return scn, model, chain, mot, sched
+
+
+def gen_stop(g):
+    import copy
+    from . import execu
+    r = g.rng
+    if g.chance(0.25):
+        # the library's own rules (position/current driven duty cycles)
+        # under a stop condition: base scenario of the control profile
+        scn = gen_ctrl(g, profile='stop')
+        model = model_of(scn['elements'], scn['decls'])
+        chain = model.chain(0)
+        mot = scn['elements'][0]
+        sched = scn['schedule']
+    else:
+        scn, model, chain, mot, sched = _stop_base(g)
+    if g.chance(0.15) and scn.get('load'):
+        scn['load']['np'] = True
     # -- dry run (real code, no stop) to learn the reachable range
     dry = copy.deepcopy(scn)
     H = execu.execute(dry, keep_objects=True)
@@ -985,6 +1002,8 @@ def gen_stop(g):
         thr = list(raw[j])
     scn['stops'] = [{'sensor': sensor, 'target': tgt, 'op': opname,
                      'thr': thr, 'place': place}]
+    if g.chance(0.12):
+        scn['stops'][0]['np'] = True
     for i, op in enumerate(sched):
         if op['op'] == 'run' and (i == 0 or g.chance(0.7)):
             op['stop'] = 0
@@ -1057,6 +1076,14 @@ def gen_query(g, profile='query'):
     sched = [gen_run(g, k)]
     if g.chance(0.4):
         sched.append(gen_run(g, k))
+        if g.chance(0.4):
+            # longer histories: the step changes and may come back to the
+            # one of the first run (coarse-fine-coarse time axis)
+            import copy
+            sched.append(copy.deepcopy(sched[0]) if g.chance(0.6)
+                         else gen_run(g, k))
+            if g.chance(0.3):
+                sched.append(copy.deepcopy(r.choice(sched[:2])))
     if profile == 'tv':
         c = r.random()
         if c < 0.35:
